@@ -257,7 +257,8 @@ ScalarBin(o, a, b) == LET x == BinOp(o, a, b) IN
 
 Eval(e, env, d) ==
   CASE e.k = "num"  -> Res(Fin(e.v), env)
-    [] e.k = "id"   -> IF e.n \in BuiltinNames THEN Res([t |-> "bi", name |-> e.n], env)
+    [] e.k = "id"   -> IF e.n \in {"inf", "infinity"} THEN Res(PInf, env)       \* the constant, whatever is bound under that name
+                       ELSE IF e.n \in BuiltinNames THEN Res([t |-> "bi", name |-> e.n], env)
                        ELSE IF e.n \notin Names THEN Res(ErrC("unbound"), env)
                        ELSE LET v == Lookup(env, e.n) IN Res(IF v = UNB THEN ErrC("unbound") ELSE v, env)
     [] e.k = "bin"  -> LET a == Eval(e.l, env, d) IN
